@@ -1,7 +1,11 @@
 #!/bin/bash
-# usage: try_mutant.sh <patch.diff> <check-id> [tier] [seed]   — applies the patch to /repo, runs the check, always undoes it
+# usage: try_mutant.sh <patch.diff> <check-id> [tier] [seed]
+# Applies the patch to a scratch worktree of /repo (outside /repo and /verif), runs the check with
+# VERIF_REPO pointing at it, removes the worktree.  /repo itself is never modified.
 P=$1; C=$2; T=${3:-quick}; S=${4:-0}
-git -C /repo apply "$P" || { echo "patch does not apply"; exit 3; }
-VERIF_SEED=$S timeout 1500 ./check $C --tier $T > /tmp/mutant_run_$C.log 2>&1; rc=$?
-git -C /repo checkout -- . ; git -C /repo status --short | head -3
-echo "exit=$rc"; grep -c "^VIOLATION" /tmp/mutant_run_$C.log; grep "^VIOLATION\|^#" /tmp/mutant_run_$C.log | head -6 | cut -c1-260
+W=/tmp/mrepo_$$
+git -C /repo worktree add -q $W HEAD || exit 3
+git -C $W apply "$P" || { echo "patch does not apply"; git -C /repo worktree remove --force $W; exit 3; }
+VERIF_REPO=$W VERIF_SEED=$S timeout 1800 ./check $C --tier $T > /tmp/mutant_run_$C.log 2>&1; rc=$?
+git -C /repo worktree remove --force $W; git -C /repo worktree prune
+echo "exit=$rc violations=$(grep -c '^VIOLATION' /tmp/mutant_run_$C.log)"; grep "^VIOLATION\|^#" /tmp/mutant_run_$C.log | head -4 | cut -c1-260
